@@ -25,8 +25,49 @@ Learn == {[form |-> f, b |-> b, feat |-> ft, sub |-> s] : f \in {"minE", "maxE",
 Strat == {[form |-> f] : f \in {"load", "load_feat", "save", "assign_minE", "assign_control"}}
 Mitl == {[form |-> f] : f \in {"mitl_until", "mitl_release", "mitl_next", "mitl_diamond", "mitl_box"}}
 
+(* the operator kind at the root of the tree a query form denotes (the kind names of UTAP::Constants::kind_t say what they stand for):
+   the path quantifier of a symbolic query; for a game query the tree handed to clients is its path formula; the SMC forms *)
+RootKind(q) ==
+    CASE q.form \in {"AG", "AGnot", "AGimply", "AGforall", "deadlock", "control_AG", "ef_control", "assign_control"} -> "AG"
+      [] q.form \in {"EF", "EFand"} -> "EF"
+      [] q.form \in {"AF", "control_AF", "control_t0"} -> "AF"
+      [] q.form = "EG" -> "EG"
+      [] q.form = "leads" -> "LEADS_TO"
+      [] q.form \in {"until", "control_until"} -> "A_UNTIL"
+      [] q.form = "wuntil" -> "A_WEAK_UNTIL"
+      [] q.form = "buchi" -> "A_BUCHI"
+      [] q.form = "sup" -> "SUP_VAR" [] q.form = "inf" -> "INF_VAR" [] q.form = "bounds" -> "BOUNDS_VAR"
+      [] q.form = "pr_quant" -> IF q.path = "box" THEN "PROBA_BOX" ELSE "PROBA_DIAMOND"
+      [] q.form = "pr_until" -> "PROBA_DIAMOND"            \* `p U q` is the reachability of q with stop predicate p
+      [] q.form = "pr_qual" -> IF (q.path = "box") = (q.cmp = "ge") THEN "PROBA_MIN_BOX" ELSE "PROBA_MIN_DIAMOND"
+           \* `Pr(phi) <= p` is handed over as its dual `Pr(dual path, not phi) >= 1 - p` (expr_proba_qualitative)
+      [] q.form = "pr_cmp" -> "PROBA_CMP"
+      [] q.form = "exp" -> "PROBA_EXP"
+      [] q.form = "sim" -> "SIMULATE"
+      [] q.form \in {"sim_reach", "sim_reach_n"} -> "SIMULATEREACH"
+      [] q.form \in {"minE", "minPr", "assign_minE"} -> "MIN_EXP"
+      [] q.form \in {"maxE", "maxPr"} -> "MAX_EXP"
+      [] q.form = "control_t2" -> "CONTROL_TOPT" [] q.form = "control_t1" -> "CONTROL_TOPT_DEF1"
+      [] q.form = "po_control" -> "PO_CONTROL"
+      [] q.form \in {"load", "load_feat"} -> "LOAD_STRAT" [] q.form = "save" -> "SAVE_STRAT"
+      [] q.form \in {"mitl_until", "mitl_release", "mitl_next", "mitl_diamond", "mitl_box"} -> "MITL_FORMULA"
+(* and of its first operand, where the form fixes it *)
+ChildKind(q) ==
+    CASE q.form \in {"AG", "EF", "control_AG", "control_AF", "control_t0", "ef_control", "assign_control"} -> "DOT"
+      [] q.form \in {"AGnot", "deadlock", "EG"} -> "NOT"
+      [] q.form = "EFand" -> "AND"
+      [] q.form = "AGimply" -> "OR"                      \* `a imply b` is built as `!a || b`
+      [] q.form = "AGforall" -> "FORALL"
+      [] q.form = "AF" -> "EQ"
+      [] q.form \in {"mitl_until", "mitl_diamond"} -> "MITL_UNTIL"
+      [] q.form \in {"mitl_release", "mitl_box"} -> "MITL_RELEASE"
+      [] q.form = "mitl_next" -> "MITL_NEXT"
+      [] OTHER -> ""
+WithKinds(S) == {[qq |-> q, root |-> RootKind(q), child |-> ChildKind(q)] : q \in S}
+
 All == Symbolic \cup SupInf \cup PrQuant \cup PrQual \cup PrCmp \cup Exp \cup Sim \cup Control \cup Learn \cup Strat \cup Mitl
 ASSUME ndJsonSerialize(IOEnv.OUTF, SetToSeq(All))
+ASSUME ndJsonSerialize(IOEnv.OUTF \o ".kinds", SetToSeq(WithKinds(All)))
 VARIABLE dummy
 Init == dummy = 0
 Next == UNCHANGED dummy
